@@ -1,5 +1,6 @@
 """C10 — REQUIRED parameters are filled from the config or the call fails cleanly."""
 import ast
+import contextlib
 import re
 
 from vf import models, probes
@@ -7,12 +8,17 @@ from vf.teq import teq
 
 ID = 'C10'
 LEVEL = 'exploration'
-RULE = ('random signature shape (fn / class __init__ / class __new__ / registered method; pos, defaulted, *args, kw-only, **kw) x '
-        'placement of gin.REQUIRED among positional slots, keywords, signature defaults, names absorbed by **kw and a *args slot x '
-        'active scope x subset of marked parameters with an applicable binding (others bound only under non-applicable scopes) x '
-        'allow/deny lists; oracle = REQUIRED model: ValueError for vararg marker, RuntimeError naming the configurable and exactly the '
-        'unfilled names in signature order (body not run), else reception computed by CPython\'s binder with the marker replaced in place. '
-        'distinct = (shape, api, signature features, marker placement classes, filled/missing counts, scope depth)')
+RULE = ('random signature shape (fn / class __init__ / class __new__ / registered method / callable object / bound method; pos, defaulted, *args, '
+        'kw-only, **kw) x placement of gin.REQUIRED among positional slots, keywords, signature defaults, names absorbed by **kw, a *args slot, a '
+        'surplus positional slot without *args and an unknown keyword without **kw x active scope (entered as list / string / nested with / scoped '
+        'selector of get_configurable / scoped or unscoped @reference of a consumer) x subset of marked parameters with an applicable binding '
+        '(others bound only under non-applicable scopes, incl. a suffix of the active scope; some bound at two prefix levels) x kind of bound value '
+        '(string, falsy, container, @evaluated(), @unevaluated, %macro; bind_parameter or parse_config) x allow/deny lists; histories of one wrapper '
+        'in which applicability changes between calls (scope change, bind after failure, clear_config); registration with several signature-level '
+        'REQUIRED of which one is not configurable; oracle = REQUIRED model: ValueError for vararg marker, RuntimeError naming the configurable '
+        '(suffix resolution over the selectors this worker registered) and exactly the unfilled names in signature order (body not run), else '
+        'reception computed by CPython\'s binder with the marker replaced in place by what the binding delivers. '
+        'distinct = (shape, api, signature features, marker placement classes, filled/missing counts, scope depth, access path, value kinds)')
 TIERS = {
     'quick': {'workers': 8, 'cases': 3600, 'timeout': 600},
     'thorough': {'workers': 16, 'cases': 30000, 'timeout': 3000},
@@ -21,104 +27,430 @@ REQUIRED_BUCKETS = ['shape:fn', 'shape:init', 'shape:new', 'shape:method', 'mark
                     'mark:vararg-slot', 'outcome:filled', 'outcome:missing', 'outcome:missing-multiple', 'outcome:vararg-rejected',
                     'outcome:partially-filled', 'scope:nonapplicable-binding', 'scope:depth2+', 'reg:required-denylisted', 'reg:required-not-allowlisted',
                     'mark:signature-overridden-by-caller', 'outcome:missing-order-differs-from-call-order', 'name:ambiguous-bare-name', 'binding:falsy-value',
-                    'history:unmarked-call-after-marked-call']
+                    'history:unmarked-call-after-marked-call',
+                    # value kinds delivered into a REQUIRED-marked parameter
+                    'value:evaluated-reference-into-marked-positional', 'value:evaluated-reference-into-marked', 'value:unevaluated-reference-into-marked',
+                    'value:macro-into-marked', 'value:container-into-marked', 'value:via-parse_config', 'value:container-mutated-then-recalled',
+                    # histories of one wrapper
+                    'history:filled-then-missing', 'history:missing-then-filled', 'history:clear_config-between-calls',
+                    'history:scope-change-between-calls', 'history:signature-required-filled-then-missing',
+                    # registration
+                    'reg:two-or-more-signature-required', 'reg:offender-not-first-required', 'reg:method-shape',
+                    # scope / access paths
+                    'scope:string-config_scope', 'scope:nested-with', 'path:get_configurable-scoped-selector', 'path:scoped-reference',
+                    'path:unscoped-reference', 'scope:marked-bound-at-two-levels', 'scope:suffix-of-active-binding',
+                    # markers outside the signature
+                    'mark:surplus-positional-no-varargs', 'mark:unknown-keyword-no-varkw', 'outcome:varkw-extra-filled']
 ORACLE_COUNTERS = ['oracle_evals', 'calls_compared', 'error_messages_parsed']
 MSG = re.compile(r"Required bindings for `([^`]+)` not provided in config: (\[.*?\])", re.S)
+
+SHAPES = ['fn', 'init', 'new', 'method', 'fn', 'callable', 'init', 'boundmethod']
+MODES = ['list', 'list', 'list', 'str', 'str', 'nested', 'nested', 'selector']
+FALSY = {'none': None, 'zero': 0, 'empty': '', 'false': False}
+VK_LITERAL = ['s', 's', 's', 'none', 'zero', 'empty', 'false', 'list', 'list', 'dict']
+VK_REFS = ['evalref', 'evalref', 'evalref', 'ref', 'macro', 'macro']  # only expressible in config text
+UNKNOWN_KW = 'zz9'
+
+
+# ---------------------------------------------------------------------------
+# generator
+
+
+def _ok_fn(spec):
+  allow, deny = spec.get('allow'), spec.get('deny')
+  return lambda x: (not allow or x in allow) and (not deny or x not in deny)
+
+
+def mark_signature(rng, spec, ok, prob=0.3, force=False):
+  """signature-level REQUIRED on some defaulted params (must be configurable, else registration fails: separate case kind)"""
+  cands = [d for d in spec['dflt'] if ok(d[0])] + [k for k in spec['kwonly'] if k[1] and ok(k[0])]
+  for c in cands:
+    if rng.random() < prob:
+      c[-1] = {'__required__': True}
+  if force and cands and not any(isinstance(c[-1], dict) for c in cands):
+    rng.choice(cands)[-1] = {'__required__': True}
+
+
+def sig_marked_names(spec):
+  return [d[0] for d in spec['dflt'] if isinstance(d[1], dict)] + [k[0] for k in spec['kwonly'] if isinstance(k[2], dict)]
+
+
+def gen_call_shape(rng, spec, extras=True):
+  pos = probes.positional_names(spec)
+  names = probes.all_named(spec)
+  nP = rng.randrange(0, len(pos) + 1)
+  # ensure non-defaulted positionals not covered positionally get a keyword (marker or value) so TypeErrors are rare
+  marks_pos = [i for i in range(nP) if rng.random() < 0.4]
+  extraP = 0
+  vararg_mark = None
+  if nP == len(pos) and extras:
+    if spec['varargs'] and rng.random() < 0.4:
+      extraP = rng.randrange(1, 3)
+      if rng.random() < 0.5:
+        vararg_mark = rng.randrange(extraP)
+    elif not spec['varargs'] and rng.random() < 0.07:
+      # more positionals than the signature has, no *args to absorb them, the marker among the surplus
+      extraP = rng.randrange(1, 3)
+      vararg_mark = rng.randrange(extraP)
+  K, marks_kw = [], []
+  for x in names:
+    if x in pos[:nP]:
+      continue
+    r = rng.random()
+    required_by_sig = x in spec['pos'] or any(k[0] == x and not k[1] for k in spec['kwonly'])
+    if r < 0.3 or (required_by_sig and r < 0.8):
+      K.append(x)
+      if rng.random() < 0.55:
+        marks_kw.append(x)
+  if spec['varkw'] and rng.random() < 0.4:
+    for x in rng.sample(['x0', 'x1', 'x2'], rng.randrange(1, 3)):
+      K.append(x)
+      if rng.random() < 0.7:
+        marks_kw.append(x)
+  if extras and not spec['varkw'] and rng.random() < 0.04:
+    # the marker for a keyword that is no parameter at all (and no **kwargs to absorb it)
+    K.append(UNKNOWN_KW)
+    marks_kw.append(UNKNOWN_KW)
+  rng.shuffle(K)
+  return {'nP': nP, 'marks_pos': marks_pos, 'extraP': extraP, 'vararg_mark': vararg_mark, 'K': K, 'marks_kw': marks_kw}
+
+
+def pick_value(rng, textual, marked=False):
+  """textual: the case writes (most of) its bindings as config text, where references and macros can be expressed."""
+  if not textual:
+    return rng.choice(VK_LITERAL), 'bind'
+  vk = rng.choice(VK_LITERAL + (VK_REFS * 2 if marked else VK_REFS[:2]))
+  return vk, ('parse' if vk in VK_REFS or rng.random() < 0.7 else 'bind')
+
+
+def gen_call_case(rng, i):
+  shape = SHAPES[i % 8]
+  mode = rng.choice(MODES + ['reference', 'reference'])
+  textual = mode == 'reference' or rng.random() < 0.3   # one parse_config per textual case (it is the expensive step)
+  if mode == 'reference' and shape == 'method':
+    mode = 'list'
+  spec = probes.gen_spec(rng, shapes=[shape], lists=mode != 'reference' and rng.random() < 0.3, max_pos=3)
+  if mode == 'reference':
+    # a reference `@P()` calls P without arguments: only signature-level markers exist on this path
+    spec['pos'] = []
+    for k in spec['kwonly']:
+      if not k[1]:
+        k[1], k[2] = True, 'dflt-' + k[0]
+    if not spec['dflt'] and not spec['kwonly']:
+      spec['dflt'] = [['d0', 'dflt-d0']]
+  pos = probes.positional_names(spec)
+  names = probes.all_named(spec)
+  allow = spec.get('allow')
+  ok = _ok_fn(spec)
+  mark_signature(rng, spec, ok, prob=0.3, force=mode == 'reference')
+  if mode == 'reference':
+    call = {'nP': 0, 'marks_pos': [], 'extraP': 0, 'vararg_mark': None, 'K': [], 'marks_kw': []}
+  else:
+    call = gen_call_shape(rng, spec)
+  active = [rng.choice(['a', 'b']) for _ in range(rng.choice([0, 0, 1, 2, 3]))]
+  marked = [pos[i] for i in call['marks_pos']] + call['marks_kw'] + sig_marked_names(spec)
+  bindable = [x for x in names if ok(x)] + (['x0', 'x1', 'x2'] if spec['varkw'] and not allow else [])
+  bindings = []
+  for x in bindable:
+    r = rng.random()
+    if x in marked:
+      if r < 0.6:
+        n1 = rng.randrange(0, len(active) + 1)
+        bindings.append(['/'.join(active[:n1]), x] + list(pick_value(rng, textual, marked=True)))
+        if active and rng.random() < 0.35:
+          # the same marked parameter bound at a second prefix level: the longer prefix wins
+          n2 = rng.choice([n for n in range(len(active) + 1) if n != n1])
+          bindings.append(['/'.join(active[:n2]), x] + list(pick_value(rng, textual, marked=True)))
+      elif r < 0.85:
+        cands = ['zz', '/'.join(active) + '/deeper' if active else 'zz/a', 'b/zz']
+        if len(active) >= 2:
+          cands += ['/'.join(active[1:])] * 2  # a suffix of the active scope (applies only if it happens to be a prefix as well)
+        bindings.append([rng.choice(cands), x] + list(pick_value(rng, textual, marked=True)))
+    elif r < 0.25:
+      bindings.append(['/'.join(active[:rng.randrange(0, len(active) + 1)]), x] + list(pick_value(rng, textual)))
+  rng.shuffle(bindings)
+  case = {'kind': 'call', 'spec': spec, 'active': active, 'bindings': bindings, 'mode': mode,
+          'ref_scoped': bool(active) and rng.random() < 0.6}
+  case.update(call)
+  return case
+
+
+def gen_history_case(rng, i):
+  """One wrapper, several calls; what applies changes in between (scope, later binding, clear_config)."""
+  shape = SHAPES[(i // 18) % 8]
+  spec = probes.gen_spec(rng, shapes=[shape], lists=False, max_pos=2)
+  mark_signature(rng, spec, lambda x: True, prob=0.4, force=rng.random() < 0.8)
+  call = gen_call_shape(rng, spec, extras=False)
+  pos = probes.positional_names(spec)
+  marked = [pos[j] for j in call['marks_pos']] + call['marks_kw'] + [x for x in sig_marked_names(spec) if x not in pos[:call['nP']] and x not in call['K']]
+  marked = sorted(set(marked))
+  s = [rng.choice(['a', 'b']) for _ in range(rng.choice([1, 1, 2]))]
+  mode = lambda: rng.choice(MODES)
+
+  def B(scope, names=None):
+    return [['bind', scope, x] + list(pick_value(rng, False) if rng.random() < 0.8 else (rng.choice(VK_LITERAL), 'parse')) for x in (marked if names is None else names)]
+
+  def C(active):
+    return ['call', list(active), mode()]
+
+  tmpl = rng.randrange(5)
+  if tmpl == 0:      # bound under s only: filled under s, unfilled outside, filled again
+    steps = B('/'.join(s)) + [C(s), C([]), C(s)] + ([C(s + ['b'])] if rng.random() < 0.5 else [])
+  elif tmpl == 1:    # filled, clear_config, unfilled, bound again, filled
+    steps = B('') + [C([]), ['clear'], C([])] + B('') + [C([])]
+  elif tmpl == 2:    # unfilled first, then bound, then filled
+    steps = [C(s)] + B('/'.join(s[:rng.randrange(0, len(s) + 1)])) + [C(s)]
+  elif tmpl == 3:    # filled under s, then a sibling scope / a shorter scope
+    steps = B('/'.join(s)) + [C(s), C(['zz']), C(s[:-1]), C(s)]
+  else:
+    steps = []
+    actives = [[], s, s[:1], s + ['b'], ['zz']]
+    for _ in range(rng.randrange(5, 9)):
+      r = rng.random()
+      if r < 0.45 and marked:
+        steps += B(rng.choice(['', '/'.join(s), s[0], 'zz']), [rng.choice(marked)])
+      elif r < 0.55:
+        steps.append(['clear'])
+      else:
+        steps.append(C(rng.choice(actives)))
+    steps.append(C(s))
+  case = {'kind': 'history', 'spec': spec, 'steps': steps, 'tmpl': tmpl}
+  case.update(call)
+  return case
 
 
 def iter_cases(ctx, rng, n):
   for i in range(n):
     if i % 12 == 11:
       yield gen_reg_case(rng)
-      continue
-    spec = probes.gen_spec(rng, shapes=[['fn', 'init', 'new', 'method', 'fn', 'callable', 'init', 'boundmethod'][i % 8]], lists=rng.random() < 0.3, max_pos=3)
-    pos = probes.positional_names(spec)
-    names = probes.all_named(spec)
-    allow, deny = spec.get('allow'), spec.get('deny')
-    ok = lambda x: (not allow or x in allow) and (not deny or x not in deny)
-    # signature-level REQUIRED on some defaulted params (must be configurable, else registration fails: separate case kind)
-    for d in spec['dflt']:
-      if rng.random() < 0.3 and ok(d[0]):
-        d[1] = {'__required__': True}
-    for k in spec['kwonly']:
-      if k[1] and rng.random() < 0.3 and ok(k[0]):
-        k[2] = {'__required__': True}
-    nP = rng.randrange(0, len(pos) + 1)
-    # ensure non-defaulted positionals not covered positionally get a keyword (marker or value) so TypeErrors are rare
-    marks_pos = [i for i in range(nP) if rng.random() < 0.4]
-    extraP = 0
-    vararg_mark = None
-    if spec['varargs'] and nP == len(pos) and rng.random() < 0.4:
-      extraP = rng.randrange(1, 3)
-      if rng.random() < 0.5:
-        vararg_mark = rng.randrange(extraP)
-    K, marks_kw = [], []
-    for x in names:
-      if x in pos[:nP]:
-        continue
-      r = rng.random()
-      required_by_sig = x in spec['pos'] or any(k[0] == x and not k[1] for k in spec['kwonly'])
-      if r < 0.3 or (required_by_sig and r < 0.8):
-        K.append(x)
-        if rng.random() < 0.55:
-          marks_kw.append(x)
-    if spec['varkw'] and rng.random() < 0.4:
-      for x in rng.sample(['x0', 'x1', 'x2'], rng.randrange(1, 3)):
-        K.append(x)
-        if rng.random() < 0.7:
-          marks_kw.append(x)
-    rng.shuffle(K)
-    active = [rng.choice(['a', 'b']) for _ in range(rng.choice([0, 0, 1, 2, 3]))]
-    marked = [pos[i] for i in marks_pos] + marks_kw + [d[0] for d in spec['dflt'] if isinstance(d[1], dict)] + \
-        [k[0] for k in spec['kwonly'] if isinstance(k[2], dict)]
-    bindable = [x for x in names if ok(x)] + (['x0', 'x1', 'x2'] if spec['varkw'] and not allow else [])
-    bindings = []
-    for x in bindable:
-      r = rng.random()
-      if x in marked:
-        if r < 0.6:
-          bindings.append(['/'.join(active[:rng.randrange(0, len(active) + 1)]), x])
-        elif r < 0.85:
-          bindings.append([rng.choice(['zz', '/'.join(active) + '/deeper' if active else 'zz/a', 'b/zz']), x])
-      elif r < 0.25:
-        bindings.append(['/'.join(active[:rng.randrange(0, len(active) + 1)]), x])
-    yield {'kind': 'call', 'spec': spec, 'nP': nP, 'marks_pos': marks_pos, 'extraP': extraP, 'vararg_mark': vararg_mark,
-           'K': K, 'marks_kw': marks_kw, 'active': active, 'bindings': bindings}
+    elif i % 18 == 4:
+      yield gen_history_case(rng, i)
+    else:
+      yield gen_call_case(rng, i)
 
 
 def gen_reg_case(rng):
-  spec = probes.gen_spec(rng, shapes=[rng.choice(['fn', 'init', 'new'])], lists=False)
+  spec = probes.gen_spec(rng, shapes=[rng.choice(['fn', 'init', 'new', 'method'])], lists=False)
   if not spec['dflt'] and not [k for k in spec['kwonly'] if k[1]]:
     spec['dflt'] = [['d0', 'dflt-d0'], ['d1', 'dflt-d1']]
+  elif rng.random() < 0.5 and len(spec['dflt']) + len([k for k in spec['kwonly'] if k[1]]) < 2:
+    spec['kwonly'] = spec['kwonly'] + [['k7', True, 'dflt-k7']]
   cands = [d for d in spec['dflt']] + [k for k in spec['kwonly'] if k[1]]
   victim = rng.choice(cands)
-  if len(victim) == 2:
-    victim[1] = {'__required__': True}
-  else:
-    victim[2] = {'__required__': True}
+  victim[-1] = {'__required__': True}
+  # further signature-level REQUIRED parameters, all of them configurable: only the victim offends
+  extra = [c for c in cands if c is not victim and rng.random() < 0.6]
+  for c in extra:
+    c[-1] = {'__required__': True}
+  extra = [c[0] for c in extra]
   names = probes.all_named(spec)
   mode = rng.choice(['deny', 'allow'])
   if mode == 'deny':
-    spec['deny'] = [victim[0]] + [x for x in names if x != victim[0] and rng.random() < 0.3]
+    spec['deny'] = [victim[0]] + [x for x in names if x != victim[0] and x not in extra and rng.random() < 0.3]
   else:
-    others = [x for x in names if x != victim[0]]
-    if not others:
+    others = [x for x in names if x != victim[0] and x not in extra]
+    if not others and not extra:
       spec['pos'] = spec['pos'] + ['pz']
       others = ['pz']
-    spec['allow'] = [rng.choice(others)]
-  return {'kind': 'reg', 'spec': spec, 'mode': mode, 'victim': victim[0]}
+    spec['allow'] = extra + ([rng.choice(others)] if others and (not extra or rng.random() < 0.5) else [])
+  return {'kind': 'reg', 'spec': spec, 'mode': mode, 'victim': victim[0], 'extra': extra}
+
+
+# ---------------------------------------------------------------------------
+# model helpers
+
+_KNOWN = {}      # last dotted component -> selectors this worker registered (the names a user can know)
+_HELPERS = {}
+_MACROS = [0]
+
+
+def track(selector):
+  _KNOWN.setdefault(selector.rsplit('.', 1)[-1], set()).add(selector)
+
+
+def resolve_known(printed):
+  """Which registered selectors does `printed` denote (gin's suffix rule, vf.models.resolve_suffix)."""
+  return models.resolve_suffix(_KNOWN.get(printed.rsplit('.', 1)[-1], ()), printed)
+
+
+def helpers(ctx):
+  """A parameterless provider `mk` (target of @mk() / @mk) and a consumer `cons(v=None)` (holder of a reference to the probe)."""
+  if not _HELPERS:
+    base = {'shape': 'fn', 'api': 'configurable', 'module': 'vfq.h', 'pos': [], 'dflt': [], 'varargs': False, 'kwonly': [], 'varkw': False}
+    _HELPERS['mk'] = probes.build(dict(base, name='mk_%s' % ctx.uid))
+    _HELPERS['cons'] = probes.build(dict(base, name='cons_%s' % ctx.uid, dflt=[['v', None]]))
+    track(_HELPERS['mk'].selector)
+    track(_HELPERS['cons'].selector)
+  return _HELPERS['mk'], _HELPERS['cons']
+
+
+def make_value(vk, scope, param):
+  """A fresh, equal structure on every call: the model never aliases what gin was given."""
+  tag = 'B|%s|%s' % (scope, param)
+  if vk in FALSY:
+    return FALSY[vk]
+  if vk == 'list':
+    return [tag, [1, 2], {'k': ['deep']}]
+  if vk == 'dict':
+    return {'t': tag, 'l': [1, [2]]}
+  return tag
+
+
+class Bound:
+  """What a binding must deliver to the function."""
+  __slots__ = ('kind', 'value', 'mk')
+
+  def __init__(self, kind, value, mk=None):
+    self.kind, self.value, self.mk = kind, value, mk
+
+  def matches(self, gv):
+    if self.kind == 'evalref':
+      return type(gv) is list and len(gv) == 3 and gv[:2] == ['ret', self.mk.pid]
+    if self.kind == 'ref':
+      try:
+        r = gv()
+      except Exception:  # pylint: disable=broad-except
+        return False
+      return type(r) is list and len(r) == 3 and r[:2] == ['ret', self.mk.pid]
+    return teq(self.value, gv)
+
+  def __repr__(self):
+    return '<bound %s %r>' % (self.kind, self.value)
+
+
+def same(ev, gv):
+  if isinstance(ev, Bound):
+    return ev.matches(gv)
+  if isinstance(ev, list):
+    return ev is gv       # caller-supplied values travel by identity
+  return teq(ev, gv)
+
+
+def same_reception(e, got):
+  if set(got) != set(e):
+    return False
+  for name, ev in e.items():
+    gv = got[name]
+    if name == '*':
+      if len(ev) != len(gv) or not all(same(a, b) for a, b in zip(ev, gv)):
+        return False
+    elif name == '**':
+      if set(ev) != set(gv) or not all(same(ev[k], gv[k]) for k in ev):
+        return False
+    elif not same(ev, gv):
+      return False
+  return True
+
+
+def apply_bindings(ctx, gin, p, model, bindings, lines=()):
+  """Bind [scope, param, value kind, via] entries: the bind_parameter ones first, then the textual ones in one parse_config."""
+  mk, _ = helpers(ctx)
+  lines = list(lines)
+  for via_now in ('bind', 'parse'):
+    for scope, param, vk, via in bindings:
+      if via != via_now:
+        continue
+      if vk in FALSY:
+        ctx.bucket('binding:falsy-value')
+      if via == 'bind':
+        gin.bind_parameter((scope, p.selector, param), make_value(vk, scope, param))
+        exp = Bound(vk, make_value(vk, scope, param))
+      else:
+        if vk == 'evalref':
+          text, exp = '@%s()' % mk.selector, Bound(vk, '@mk()', mk)
+        elif vk == 'ref':
+          text, exp = '@%s' % mk.selector, Bound(vk, '@mk', mk)
+        elif vk == 'macro':
+          _MACROS[0] += 1
+          name = 'VFMAC_%d' % _MACROS[0]
+          lines.append('%s = %r' % (name, make_value('s', scope, param)))
+          text, exp = '%' + name, Bound(vk, make_value('s', scope, param))
+        else:
+          text, exp = repr(make_value(vk, scope, param)), Bound(vk, make_value(vk, scope, param))
+        lines.append('%s%s.%s = %s' % (scope + '/' if scope else '', p.selector, param, text))
+      model.setdefault((scope, p.selector), {})[param] = exp
+  if lines:
+    ctx.bucket('value:via-parse_config')
+    gin.parse_config('\n'.join(lines) + '\n')
+
+
+def build_probe(ctx, spec, decoy):
+  if decoy:
+    # a decoy with the same name under another module: the bare name is now ambiguous
+    spec = dict(spec, name='R%d_%s' % (ctx.case_no, ctx.uid))
+    d = probes.build({'shape': 'fn', 'api': 'external', 'name': spec['name'], 'module': 'vfq.decoy', 'pos': [], 'dflt': [], 'varargs': False,
+                      'kwonly': [], 'varkw': False})
+    track(d.selector)
+    ctx.bucket('name:ambiguous-bare-name')
+  p = probes.build(spec)
+  track(p.selector)
+  if spec['shape'] == 'method':
+    track(p.cls_selector)
+  ctx.bucket('shape:' + spec['shape'])
+  return spec, p
+
+
+def build_args(gin, call):
+  P = [gin.REQUIRED if i in call['marks_pos'] else ['caller-pos', i] for i in range(call['nP'])]
+  P += [gin.REQUIRED if call['vararg_mark'] == i else ['caller-var', i] for i in range(call['extraP'])]
+  K = {}
+  for k in call['K']:
+    K[k] = gin.REQUIRED if k in call['marks_kw'] else ['caller-kw', k]
+  return P, K
+
+
+def invoke(ctx, gin, p, P, K, active, mode, ref_scoped):
+  """Call the probe with `active` as the active scope, reached through access path `mode`."""
+  shape = p.spec['shape']
+  if mode == 'reference':
+    _, cons = helpers(ctx)
+    if ref_scoped and active:
+      ctx.bucket('path:scoped-reference')
+      return cons.conf()
+    ctx.bucket('path:unscoped-reference')
+    with (gin.config_scope(list(active)) if active else contextlib.nullcontext()):
+      return cons.conf()
+  if mode == 'selector' and shape != 'method':
+    if active:
+      ctx.bucket('path:get_configurable-scoped-selector')
+    fn = gin.get_configurable(('/'.join(active) + '/' if active else '') + p.selector)
+    return fn(*P, **K)
+  with contextlib.ExitStack() as st:
+    if active and mode == 'str':
+      ctx.bucket('scope:string-config_scope')
+      st.enter_context(gin.config_scope('/'.join(active)))
+    elif active and mode == 'nested':
+      ctx.bucket('scope:nested-with')
+      for c in active:
+        st.enter_context(gin.config_scope(c))
+    elif active:
+      st.enter_context(gin.config_scope(list(active)))
+    return probes.call_probe(p, P, K)
+
+
+# ---------------------------------------------------------------------------
+# oracle
 
 
 def run_reg(ctx, case):
   import gin
   spec = case['spec']
+  method = spec['shape'] == 'method'
   ctx.bucket('reg:required-denylisted' if case['mode'] == 'deny' else 'reg:required-not-allowlisted')
+  if case.get('extra'):
+    ctx.bucket('reg:two-or-more-signature-required')
+    order = [x for x in probes.all_named(spec) if x == case['victim'] or x in case['extra']]
+    if order[0] != case['victim']:
+      ctx.bucket('reg:offender-not-first-required')
+  if method:
+    ctx.bucket('reg:method-shape')
   p = probes.build(spec, register=False)
-  if ctx.case_no % 2 == 0:
+  if ctx.case_no % 2 == 0 and not method:
     # the same object is first registered under another name, without lists: accepted, and its signature-level REQUIRED is honoured;
     # whatever that registration looked at must not change what the next registration of the same object sees
     ctx.bucket('reg:same-object-registered-before')
     first = gin.external_configurable(p.original, name=p.name + '_first', module=p.module)
+    track('%s.%s_first' % (p.module, p.name))
     K = {n: 0 for n in spec['pos']}
     K.update({k[0]: 0 for k in spec['kwonly'] if not k[1]})
     mark = probes.RECORDER.mark()
@@ -126,7 +458,12 @@ def run_reg(ctx, case):
       first(**K)
       ctx.check(False, 'missing-required-not-reported', 'first registration of the object: call with %r unbound did not fail' % case['victim'])
     except RuntimeError as e:
+      mt = MSG.search(str(e))
       ctx.check(case['victim'] in str(e), 'required-error-list-differs', 'first registration: error does not name %r: %s' % (case['victim'], str(e)[:200]))
+      if mt is not None:
+        want = [x for x in probes.all_named(spec) if x == case['victim'] or x in case.get('extra', [])]
+        ctx.check(ast.literal_eval(mt.group(2)) == want, 'required-error-list-differs',
+                  'first registration: error lists %s, model (all signature-level REQUIRED, signature order) %r' % (mt.group(2), want))
     except Exception as e:  # pylint: disable=broad-except
       ctx.check(False, 'unexpected-exception', 'first registration: %s: %s' % (type(e).__name__, str(e)[:200]))
     ctx.check(not probes.RECORDER.since(mark, p.pid), 'body-ran-with-unfilled-required', 'first registration: the body ran although %r was unfilled' % case['victim'])
@@ -134,90 +471,140 @@ def run_reg(ctx, case):
   try:
     probes.do_register(p)
     ctx.check(False, 'required-on-nonconfigurable-param-registered',
-              'registration accepted a signature-level REQUIRED on %s parameter %r' % ('denylisted' if case['mode'] == 'deny' else 'non-allowlisted', case['victim']))
+              'registration accepted a signature-level REQUIRED on %s parameter %r (other signature-level REQUIRED: %r)' %
+              ('denylisted' if case['mode'] == 'deny' else 'non-allowlisted', case['victim'], case.get('extra')))
   except ValueError:
     ctx.count('oracle_evals')
-  try:
-    gin.get_configurable('%s.%s' % (p.module, p.name))
-    ctx.check(False, 'rejected-registration-left-entry', 'rejected registration left %s.%s in the registry' % (p.module, p.name))
-  except ValueError:
-    ctx.count('oracle_evals')
+  queries = ['%s.%s' % (p.module, p.name), p.name]
+  if method:
+    queries += ['%s.%s.%s' % (p.module, p.cls_name, p.name), '%s.%s' % (p.cls_name, p.name)]
+  for q in queries:
+    try:
+      gin.get_configurable(q)
+      ctx.check(False, 'rejected-registration-left-entry', 'rejected registration left %s in the registry' % q)
+    except ValueError:
+      ctx.count('oracle_evals')
   if before is not None:
     ctx.check(p.original.__init__ is before, 'rejected-registration-mutated-class', 'rejected registration replaced __init__')
-  ctx.fp('reg', spec['shape'], spec['api'], case['mode'])
+  ctx.fp('reg', spec['shape'], spec['api'], case['mode'], len(case.get('extra', [])))
 
 
 def run_case(ctx, case):
   import gin
   if case['kind'] == 'reg':
     return run_reg(ctx, case)
-  spec = case['spec']
+  if case['kind'] == 'history':
+    return run_history(ctx, gin, case)
   gin.clear_config()
-  if spec['shape'] != 'method' and ctx.case_no % 3 == 0:
-    # a decoy with the same name under another module: the bare name is now ambiguous
-    spec = dict(spec, name='R%d_%s' % (ctx.case_no, ctx.uid))
-    probes.build({'shape': 'fn', 'api': 'external', 'name': spec['name'], 'module': 'vfq.decoy', 'pos': [], 'dflt': [], 'varargs': False,
-                  'kwonly': [], 'varkw': False})
-    ctx.bucket('name:ambiguous-bare-name')
-  p = probes.build(spec)
-  ctx.bucket('shape:' + spec['shape'])
+  spec, p = build_probe(ctx, case['spec'], case['spec']['shape'] != 'method' and ctx.case_no % 3 == 0)
   model = {}
-  for bi, (scope, param) in enumerate(case['bindings']):
-    # bound values include falsy ones: a binding of None / 0 / '' / [] is still a binding
-    value = [None, 0, '', 'B|%s|%s' % (scope, param), False, 'B|%s|%s' % (scope, param)][(ctx.case_no + bi) % 6] if (ctx.case_no % 3 == 0) else 'B|%s|%s' % (scope, param)
-    if value in (None, 0, '', False):
-      ctx.bucket('binding:falsy-value')
-    gin.bind_parameter((scope, p.selector, param), value)
-    model.setdefault((scope, p.selector), {})[param] = value
-  active = case['active']
+  lines = []
+  if case.get('mode') == 'reference':
+    # the consumer's parameter holds a reference to the probe: evaluating it is the call
+    _, cons = helpers(ctx)
+    scoped = case.get('ref_scoped') and case['active']
+    lines.append('%s.v = @%s%s()' % (cons.selector, '/'.join(case['active']) + '/' if scoped else '', p.selector))
+  apply_bindings(ctx, gin, p, model, case['bindings'], lines)
+  do_call(ctx, gin, p, spec, model, case, case['active'], case.get('mode', 'list'), case.get('ref_scoped', False), followup=True)
+
+
+def run_history(ctx, gin, case):
+  gin.clear_config()
+  spec, p = build_probe(ctx, case['spec'], case['spec']['shape'] != 'method' and ctx.case_no % 2 == 0)
+  model = {}
+  prev = prev_active = None
+  cleared = False
+  sig_marked = sig_marked_names(spec)
+  pending = []
+  for step in case['steps']:
+    if step[0] == 'bind':
+      pending.append(step[1:])
+      continue
+    if pending:
+      apply_bindings(ctx, gin, p, model, pending)
+      pending = []
+    if step[0] == 'clear':
+      gin.clear_config()
+      model.clear()
+      cleared = True
+    else:
+      out = do_call(ctx, gin, p, spec, model, case, step[1], step[2], False, followup=False)
+      if prev == 'filled' and out == 'missing':
+        ctx.bucket('history:filled-then-missing')
+        pos = probes.positional_names(spec)
+        if any(x not in pos[:case['nP']] and x not in case['K'] for x in sig_marked):
+          ctx.bucket('history:signature-required-filled-then-missing')
+      if prev == 'missing' and out == 'filled':
+        ctx.bucket('history:missing-then-filled')
+      if prev is not None and cleared:
+        ctx.bucket('history:clear_config-between-calls')
+      if prev is not None and prev_active != step[1]:
+        ctx.bucket('history:scope-change-between-calls')
+      prev, prev_active, cleared = out, step[1], False
+
+
+def do_call(ctx, gin, p, spec, model, call, active, mode, ref_scoped, followup):
+  """One call of the probe, judged against the REQUIRED model; returns the outcome class."""
   applicable = models.overlay(model, p.selector, active)
-  if any(sc and not ('/'.join(active) == sc or '/'.join(active).startswith(sc + '/')) for (sc, _) in model):
+  astr = '/'.join(active)
+  if any(sc and not (astr == sc or astr.startswith(sc + '/')) for (sc, _) in model):
     ctx.bucket('scope:nonapplicable-binding')
+  if any(sc and not (astr == sc or astr.startswith(sc + '/')) and astr.endswith('/' + sc) for (sc, _) in model):
+    ctx.bucket('scope:suffix-of-active-binding')
   if len(active) >= 2:
     ctx.bucket('scope:depth2+')
   pos = probes.positional_names(spec)
-  nP = case['nP']
-  P = [gin.REQUIRED if i in case['marks_pos'] else ['caller-pos', i] for i in range(nP)]
-  P += [gin.REQUIRED if case['vararg_mark'] == i else ['caller-var', i] for i in range(case['extraP'])]
-  K = {}
-  for k in case['K']:
-    K[k] = gin.REQUIRED if k in case['marks_kw'] else ['caller-kw', k]
-  sig_marked = [d[0] for d in spec['dflt'] if isinstance(d[1], dict)] + [k[0] for k in spec['kwonly'] if isinstance(k[2], dict)]
-  if case['marks_pos']:
+  names = probes.all_named(spec)
+  nP = call['nP']
+  P, K = build_args(gin, call)
+  sig_marked = sig_marked_names(spec)
+  unknown_kw = [k for k in call['marks_kw'] if k not in names and not spec['varkw']]
+  if call['marks_pos']:
     ctx.bucket('mark:positional')
-  if any(k in probes.all_named(spec) for k in case['marks_kw']):
+  if any(k in names for k in call['marks_kw']):
     ctx.bucket('mark:keyword')
-  if any(k not in probes.all_named(spec) for k in case['marks_kw']):
+  if spec['varkw'] and any(k not in names for k in call['marks_kw']):
     ctx.bucket('mark:varkw-extra')
+  if unknown_kw:
+    ctx.bucket('mark:unknown-keyword-no-varkw')
   if sig_marked:
     ctx.bucket('mark:signature')
-  if case['vararg_mark'] is not None:
-    ctx.bucket('mark:vararg-slot')
+  if call['vararg_mark'] is not None:
+    ctx.bucket('mark:vararg-slot' if spec['varargs'] else 'mark:surplus-positional-no-varargs')
 
   # ---- model
   expect = None
-  if case['vararg_mark'] is not None:
+  marked = []
+  if unknown_kw:
+    # a name that is no parameter can have no binding: the call cannot succeed, and the marker must not reach the body (any exception class)
+    expect = ('AnyError', 'unknown-keyword-required-not-rejected', 'gin.REQUIRED for keyword %r, which is no parameter and there is no **kwargs' % unknown_kw)
+  elif call['vararg_mark'] is not None and spec['varargs']:
     expect = ('ValueError',)
+  elif call['vararg_mark'] is not None:
+    expect = ('AnyError', 'surplus-positional-required-not-rejected', 'gin.REQUIRED as a surplus positional argument (no *args in the signature)')
   else:
-    marked_pos = [pos[i] for i in case['marks_pos']]
+    marked_pos = [pos[i] for i in call['marks_pos']]
     supplied = set(pos[:nP]) | set(K)
     sig_pending = [x for x in sig_marked if x not in supplied]
-    if any(x in supplied and x not in marked_pos and x not in case['marks_kw'] for x in sig_marked):
+    if any(x in supplied and x not in marked_pos and x not in call['marks_kw'] for x in sig_marked):
       ctx.bucket('mark:signature-overridden-by-caller')
-    marked = marked_pos + sig_pending + [k for k in case['K'] if k in case['marks_kw']]
+    marked = marked_pos + sig_pending + [k for k in call['K'] if k in call['marks_kw']]
+    for x in set(marked):
+      if sum(1 for i in range(len(active) + 1) if x in model.get(('/'.join(active[:i]), p.selector), {})) >= 2:
+        ctx.bucket('scope:marked-bound-at-two-levels')
     missing = [x for x in marked if x not in applicable]
     if missing:
       sig_order = pos + [k[0] for k in spec['kwonly']]
       ordered = [x for x in sig_order if x in missing]
-      ordered += [x for x in case['K'] if x in missing and x not in ordered]
+      ordered += [x for x in call['K'] if x in missing and x not in ordered]
       expect = ('RuntimeError', ordered)
       if len(set(missing)) < len(set(marked)):
         ctx.bucket('outcome:partially-filled')
       if ordered != [x for x in marked if x in missing]:
         ctx.bucket('outcome:missing-order-differs-from-call-order')
     else:
-      P2 = [applicable[pos[i]] if i in case['marks_pos'] else v for i, v in enumerate(P)]
-      K2 = {k: (applicable[k] if k in case['marks_kw'] else v) for k, v in K.items()}
+      P2 = [applicable[pos[i]] if i in call['marks_pos'] else v for i, v in enumerate(P)]
+      K2 = {k: (applicable[k] if k in call['marks_kw'] else v) for k, v in K.items()}
       inj = {k: v for k, v in applicable.items() if k not in pos[:nP] and k not in K}
       try:
         expect = ('ok', p.twin(*P2, **{**inj, **K2}), bool(marked))
@@ -227,77 +614,116 @@ def run_case(ctx, case):
   mark = probes.RECORDER.mark()
   got_exc = None
   try:
-    if active:
-      with gin.config_scope(list(active)):
-        probes.call_probe(p, P, dict(K))
-    else:
-      probes.call_probe(p, P, dict(K))
+    invoke(ctx, gin, p, P, dict(K), active, mode, ref_scoped)
   except Exception as e:  # pylint: disable=broad-except
     got_exc = e
   recs = probes.RECORDER.since(mark, p.pid)
   ctx.count('calls_compared')
+  kinds = sorted({applicable[x].kind for x in marked if x in applicable})
   ctx.fp(spec['shape'], spec['api'], len(spec['pos']), len(spec['dflt']), spec['varargs'], len(spec['kwonly']), spec['varkw'],
-         len(case['marks_pos']), len(case['marks_kw']), len(sig_marked), expect[0], len(expect[1]) if expect[0] == 'RuntimeError' else 0, len(active))
+         len(call['marks_pos']), len(call['marks_kw']), len(sig_marked), expect[0], len(expect[1]) if expect[0] == 'RuntimeError' else 0, len(active),
+         mode, kinds)
   ctx.sample({'spec': spec, 'P': [('REQUIRED' if v is gin.REQUIRED else 'v') for v in P], 'K': {k: ('REQUIRED' if v is gin.REQUIRED else 'v') for k, v in K.items()},
-              'active': active, 'bindings': case['bindings'], 'expect': repr(expect)[:300]}, cap=4)
+              'active': active, 'mode': mode, 'bindings': sorted((sc, sorted(d)) for (sc, _), d in model.items()), 'expect': repr(expect)[:300]}, cap=4)
 
+  if expect[0] == 'AnyError':
+    ctx.check(got_exc is not None and not recs, expect[1],
+              '%s: got %r, body ran %d times, received %r' % (expect[2], got_exc, len(recs), recs[0].received if recs else None))
+    return 'rejected'
   if expect[0] == 'ValueError':
     ctx.bucket('outcome:vararg-rejected')
     ctx.check(isinstance(got_exc, ValueError) and not recs, 'vararg-required-not-rejected',
               'gin.REQUIRED in a *args slot: got %r, body ran %d times' % (got_exc, len(recs)))
-    return
+    return 'rejected'
   if expect[0] == 'RuntimeError':
     ctx.bucket('outcome:missing')
     if len(expect[1]) > 1:
       ctx.bucket('outcome:missing-multiple')
     if not ctx.check(isinstance(got_exc, RuntimeError), 'missing-required-not-reported',
-                     'unfilled REQUIRED %r: expected RuntimeError, got %r (body ran %d times, received %r)' %
-                     (expect[1], got_exc, len(recs), recs[0].received if recs else None)):
-      return
+                     'unfilled REQUIRED %r (path %s, scope %r): expected RuntimeError, got %r (body ran %d times, received %r)' %
+                     (expect[1], mode, active, got_exc, len(recs), recs[0].received if recs else None)):
+      return 'missing'
     ctx.check(not recs, 'body-ran-despite-missing-required', 'body ran although %r were unfilled' % (expect[1],))
     mt = MSG.search(str(got_exc))
     if not ctx.check(mt is not None, 'required-error-message-format', 'message %r' % str(got_exc)[:300]):
-      return
+      return 'missing'
     ctx.count('error_messages_parsed')
-    from gin import config as gc
-    try:
-      named = gc._REGISTRY.get_match(mt.group(1))
-    except KeyError:
-      named = None  # ambiguous
-    ctx.check(named is not None and named.selector == p.selector, 'required-error-names-wrong-configurable',
-              'error names %r which resolves to %r, expected %s' % (mt.group(1), getattr(named, 'selector', None), p.selector))
+    # the printed name, read the way a user reads it: suffix resolution over the selectors registered here (not gin's registry)
+    named = resolve_known(mt.group(1))
+    ctx.check(named == [p.selector], 'required-error-names-wrong-configurable',
+              'error names %r which denotes %r among the registered selectors, expected exactly %s' % (mt.group(1), named, p.selector))
     listed = ast.literal_eval(mt.group(2))
     ctx.check(listed == expect[1], 'required-error-list-differs',
-              'error lists %r, model (unfilled, signature order) %r' % (listed, expect[1]))
-    followup_call(ctx, gin, p, spec, active, applicable, sig_marked)
-    return
+              'error lists %r, model (unfilled, signature order) %r (path %s, scope %r)' % (listed, expect[1], mode, active))
+    if followup:
+      followup_call(ctx, gin, p, spec, active, applicable, sig_marked)
+    return 'missing'
   if expect[0] == 'TypeError':
     ctx.check(isinstance(got_exc, TypeError), 'expected-TypeError', 'binder raises TypeError(%s); gin gave %r' % (expect[1], got_exc))
-    return
+    return 'typeerror'
   ctx.bucket('outcome:filled' if expect[2] else 'outcome:no-marker')
-  if not ctx.check(got_exc is None, 'unexpected-exception', 'call raised %s: %s; expected %r' % (type(got_exc).__name__, str(got_exc)[:300], expect[1])):
-    return
+  if not ctx.check(got_exc is None, 'unexpected-exception', 'call raised %s: %s; expected %r (path %s, scope %r)' %
+                   (type(got_exc).__name__, str(got_exc)[:300], expect[1], mode, active)):
+    return 'error'
   if not ctx.check(len(recs) == 1, 'probe-run-count', 'probe body ran %d times' % len(recs)):
-    return
+    return 'error'
   got = recs[0].received
   flat = list(got.values()) + list(got.get('*', ())) + list(got.get('**', {}).values())
   ctx.check(not any(v is gin.REQUIRED for v in flat), 'required-marker-leaked', 'the function received gin.REQUIRED itself: %r' % got)
   e = expect[1]
-  ok = set(got) == set(e)
-  for name in e:
-    if not ok:
-      break
-    ev, gv = e[name], got.get(name)
-    if name == '*':
-      ok = len(ev) == len(gv) and all(a is b for a, b in zip(ev, gv))
-    elif name == '**':
-      ok = set(ev) == set(gv) and all((ev[k] is gv[k]) if isinstance(ev[k], list) else teq(ev[k], gv[k]) for k in ev)
-    elif isinstance(ev, list):
-      ok = ev is gv
-    else:
-      ok = teq(ev, gv)
-  ctx.check(ok, 'required-filled-wrong', 'received %r, model %r (applicable %r)' % (got, e, applicable))
-  followup_call(ctx, gin, p, spec, active, applicable, sig_marked)
+  received_marked = {x: (got[x] if x in got else got.get('**', {}).get(x)) for x in marked}
+  for x in marked:
+    b = applicable[x]
+    if b.kind == 'evalref':
+      ctx.bucket('value:evaluated-reference-into-marked')
+      if x in [pos[i] for i in call['marks_pos']]:
+        ctx.bucket('value:evaluated-reference-into-marked-positional')
+    elif b.kind == 'ref':
+      ctx.bucket('value:unevaluated-reference-into-marked')
+    elif b.kind == 'macro':
+      ctx.bucket('value:macro-into-marked')
+    elif b.kind in ('list', 'dict'):
+      ctx.bucket('value:container-into-marked')
+    if x not in names:
+      ctx.bucket('outcome:varkw-extra-filled')
+  undelivered = [x for x in marked if applicable[x].kind in ('evalref', 'ref', 'macro') and not applicable[x].matches(received_marked[x])]
+  if undelivered:
+    ctx.check(False, 'required-reference-binding-not-delivered',
+              'REQUIRED-marked %r bound to a reference/macro: received %r, the binding delivers %r' %
+              (undelivered, {x: received_marked[x] for x in undelivered}, {x: applicable[x] for x in undelivered}))
+  else:
+    ctx.check(same_reception(e, got), 'required-filled-wrong', 'received %r, model %r (applicable %r, path %s, scope %r)' % (got, e, applicable, mode, active))
+  # the consumer changes the containers it was handed; the next identical call must again be filled from the binding
+  mutated = []
+  for x in marked:
+    gv = received_marked[x]
+    if applicable[x].kind == 'list' and type(gv) is list:
+      gv.append('MUTATED-BY-CONSUMER')
+      gv[1].append(3) if len(gv) > 1 and type(gv[1]) is list else None
+      mutated.append(x)
+    elif applicable[x].kind == 'dict' and type(gv) is dict:
+      gv['MUTATED-BY-CONSUMER'] = 1
+      mutated.append(x)
+  if mutated:
+    ctx.bucket('value:container-mutated-then-recalled')
+    P, K = build_args(gin, call)
+    P2 = [applicable[pos[i]] if i in call['marks_pos'] else v for i, v in enumerate(P)]
+    K2 = {k: (applicable[k] if k in call['marks_kw'] else v) for k, v in K.items()}
+    e2 = p.twin(*P2, **{**inj, **K2})
+    mark = probes.RECORDER.mark()
+    exc = None
+    try:
+      invoke(ctx, gin, p, P, dict(K), active, mode, ref_scoped)
+    except Exception as ex:  # pylint: disable=broad-except
+      exc = ex
+    recs = probes.RECORDER.since(mark, p.pid)
+    if ctx.check(exc is None and len(recs) == 1, 'unexpected-exception', 'the same call repeated raised %r (body ran %d times)' % (exc, len(recs))):
+      ctx.check(same_reception(e2, recs[0].received), 'required-filled-value-aliases-config',
+                'the consumer mutated the containers it received for %r; the same call repeated then received %r, the binding is %r' %
+                (mutated, recs[0].received, {x: applicable[x] for x in mutated}))
+  if followup:
+    followup_call(ctx, gin, p, spec, active, applicable, sig_marked)
+  return 'filled' if expect[2] else 'nomarker'
 
 
 def followup_call(ctx, gin, p, spec, active, applicable, sig_marked):
@@ -335,8 +761,7 @@ def followup_call(ctx, gin, p, spec, active, applicable, sig_marked):
                    'a later call without any REQUIRED marker (all unfilled parameters supplied by the caller) raised %r' % (exc,)):
     return
   got = recs[0].received
-  ok = set(got) == set(want) and all((got[k] is want[k]) if isinstance(want[k], list) else (teq(got[k], want[k]) if k not in ('*', '**') else True) for k in want)
-  ctx.check(ok, 'later-unmarked-call-differs', 'later unmarked call received %r, model %r' % (got, want))
+  ctx.check(same_reception(want, got), 'later-unmarked-call-differs', 'later unmarked call received %r, model %r' % (got, want))
 
 
 def finish(ctx):
@@ -345,9 +770,10 @@ def finish(ctx):
 
 
 LEVEL_TEXT = ('Runtime monitor with a REQUIRED-rule reference model: every generated placement of gin.REQUIRED (positional, keyword, '
-              'signature default, **kwargs extra, *args slot) x binding subset x scope is executed on the real wrapper; the exception class, the '
-              'parsed error message (configurable named, unfilled names in signature order), whether the body ran, the exact reception '
-              '(CPython binder with the marker replaced in place) and non-leakage of the marker are compared.')
-LEVEL_NOTE = 'Trusted: the REQUIRED model (~40 lines) and CPython argument binding. Bindings whose value is %gin.REQUIRED itself are excluded (DESIGN X).'
-TECHNIQUE = 'runtime reference-model monitor over generated REQUIRED placements, with error-message parsing'
+              'signature default, **kwargs extra, *args slot, surplus positional, unknown keyword) x binding subset x kind of bound value x scope '
+              'x access path is executed on the real wrapper, also as histories of one wrapper across which applicability changes; the exception '
+              'class, the parsed error message (configurable named, unfilled names in signature order), whether the body ran, the exact reception '
+              '(CPython binder with the marker replaced in place by what the binding delivers) and non-leakage of the marker are compared.')
+LEVEL_NOTE = 'Trusted: the REQUIRED model (~60 lines) and CPython argument binding. Bindings whose value is %gin.REQUIRED itself are excluded (DESIGN X).'
+TECHNIQUE = 'runtime reference-model monitor over generated REQUIRED placements and call histories, with error-message parsing'
 DESIGN_REF = 'DESIGN.md section 4, C10'
